@@ -14,6 +14,7 @@ Case kinds
   poll    `poll.run` through the relay across fault / recovery cycles (thorough tier)
 """
 import json
+import os
 import struct
 import threading
 import time
@@ -187,6 +188,24 @@ class Exchange:
 
     def line(self):
         return show_results(self.results) + ";" + self.end
+
+
+# ------------------------------------------------------------------------------------------------
+_worker_suite = None
+
+
+def _worker_init():
+    global _worker_suite
+    net._listener = None            # the listening socket must not be shared between processes
+    net.quiet_logging()
+    _worker_suite = C13()
+
+
+def _worker_run(case):
+    try:
+        return _worker_suite.run_script(case)
+    except Exception:
+        return None                 # the parent runs it again and reports
 
 
 # ------------------------------------------------------------------------------------------------
@@ -383,6 +402,31 @@ class C13(Suite):
     KIND_POOL = ["r", "r", "r", "w", "ga", "sa", "re", "r6"]
 
     def cases(self, tier, rng):
+        script = list(self.script_cases(tier, rng))
+        self.precompute(script)             # scripted exchanges are independent: run them on a few processes
+        yield from script
+        # 4. the real simulator behind the relay
+        yield from self.relay_cases(tier, rng)
+        # 5. proxy and poll
+        yield from self.proxy_cases(tier, rng)
+
+    def precompute(self, cases):
+        jobs = int(os.environ.get("C13_JOBS", "0") or 0) or max(1, min(6, (os.cpu_count() or 2) // 2))
+        self.precomputed = {}
+        if jobs <= 1 or len(cases) < 50:
+            return
+        import multiprocessing
+        ctx = multiprocessing.get_context("fork")
+        try:
+            with ctx.Pool(jobs, initializer=_worker_init) as pool:
+                outs = pool.map(_worker_run, cases, chunksize=16)
+        except Exception:
+            return
+        for c, o in zip(cases, outs):
+            if o is not None:
+                self.precomputed[json.dumps(c, sort_keys=True)] = o
+
+    def script_cases(self, tier, rng):
         quick = tier == "quick"
         # 1. exhaustive small scope: one 3-read exchange, every cut offset, EOF and silence, pipeline and synchronous
         base = self.script_case(rng, ["r", "r", "r"], False, 0, "pipe", 2)
@@ -397,7 +441,7 @@ class C13(Suite):
         for k in (0, 27, 28, 29, 78, 100, 128, 178):
             yield dict(base, api="sync", depth=0, k=k, mode="quiet")
         # 2. seeded random exchanges, cut at boundary-biased offsets
-        nex = 45 if quick else 700
+        nex = 150 if quick else 1800
         for _ in range(nex):
             n = rng.choice([1, 2, 3, 3, 4, 6, 8, 10])
             kinds = [rng.choice(self.KIND_POOL) for _ in range(n)]
@@ -412,7 +456,7 @@ class C13(Suite):
             for k in self.interesting_offsets(rng, reg, frames, 10 if quick else 14):
                 yield dict(case, k=k, mode="quiet" if rng.random() < 0.2 else "eof")
         # 3. mutated streams (whole, and cut)
-        nmut = 110 if quick else 2500
+        nmut = 400 if quick else 6000
         for _ in range(nmut):
             n = rng.choice([2, 3, 4, 6])
             kinds = [rng.choice(self.KIND_POOL) for _ in range(n)]
@@ -429,10 +473,6 @@ class C13(Suite):
                 reg, frames = self.script_stream(case)
                 k = rng.choice(self.interesting_offsets(rng, reg, frames, 6))
                 yield dict(case, k=k, mode="eof")
-        # 4. the real simulator behind the relay
-        yield from self.relay_cases(tier, rng)
-        # 5. proxy and poll
-        yield from self.proxy_cases(tier, rng)
 
     # ---------------------------------------------------------------------------------------- relay cases
     # (operation text, expected value: list / True (write) / None (refused))
@@ -461,7 +501,7 @@ class C13(Suite):
     def relay_cases(self, tier, rng):
         quick = tier == "quick"
         self.need_sim()
-        for ex in self.relay_exchanges(rng, 1 if quick else 3):
+        for exi, ex in enumerate(self.relay_exchanges(rng, 1 if quick else 3)):
             s2c, c2s = self.relay_reference(ex)
             base = dict(ex, kind="relay", chop=None)
             yield dict(base, dir="none", k=None, mode="eof")
@@ -479,11 +519,13 @@ class C13(Suite):
                         offs = sorted(rng.sample(offs, want))
                     extra = [rng.randrange(total + 1) for _ in range(6)]
                     offs = sorted(set(offs) | set(extra))
+                elif direction == "s2c" or exi == 0:
+                    offs = range(total + 1)                       # EVERY cut offset
                 else:
-                    offs = range(total + 1)
+                    offs = sorted(set(rng.sample(range(total + 1), 200)) | set(ends))
                 for k in offs:
                     yield dict(base, dir=direction, k=k, mode="eof", chop=rng.choice([None, None, 5]))
-                qn = 8 if quick else 60
+                qn = 8 if quick else 25
                 for k in sorted(rng.sample(range(total + 1), qn)):
                     yield dict(base, dir=direction, k=k, mode="quiet")
             nframes = len(net.frame_ends(s2c))
@@ -581,6 +623,14 @@ class C13(Suite):
         return c["kind"] == "script" and c["mut"] == "none"
 
     def impl_script(self, c):
+        pre = getattr(self, "precomputed", None)
+        if pre:
+            out = pre.get(json.dumps(c, sort_keys=True))
+            if out is not None:
+                return out
+        return self.run_script(c)
+
+    def run_script(self, c):
         reg, frames = self.script_stream(c)
         data = reg + b"".join(frames)
         if c["k"] is not None:
